@@ -22,3 +22,5 @@ pub uninterp spec fn result_id(r: Result<(Vec<u8>, Vec<OsOpaqueIpcChannel>, Vec<
 pub fn recv(fd: c_int, blocking_mode: BlockingMode, Tracked(g): Tracked<&mut RxLog>) -> (r: Result<(Vec<u8>, Vec<OsOpaqueIpcChannel>, Vec<OsIpcSharedMemory>), UnixError>)
     ensures final(g).calls == old(g).calls.push((fd, blocking_mode)), final(g).results == old(g).results.push(result_id(r))
 { unimplemented!() }
+pub assume_specification [std::time::Duration::from_millis] (ms: u64) -> std::time::Duration;
+pub assume_specification [std::time::Duration::from_secs] (s: u64) -> std::time::Duration;
